@@ -203,7 +203,40 @@ pub fn generate(prop: &str, thorough: bool, rng: &mut Rng) -> Case {
                     ops.insert(at, Op::Ctl { what: 21, arg: k | ((rng.below(4) as u64) << 16) });
                 }
             }
+            // flushing held for a stretch of operations: whatever is handed to the disk tier stays in its write queue
+            // (lookups are then served from the queue; removes and updates meet queued, not yet indexed versions)
+            if rng.chance(1, 3) {
+                let at = rng.below(ops.len() + 1);
+                ops.insert(at, Op::Ctl { what: 13, arg: 1 });
+                let off = (at + 2 + rng.below(6)).min(ops.len());
+                ops.insert(off, Op::Ctl { what: 13, arg: 0 });
+            }
+            // a second foreground client on its own keys, concurrent with the first (no restarts then: both share the store)
+            let with_b = prop == "C01" && rng.chance(1, 2);
+            if with_b {
+                for op in ops.iter_mut() {
+                    // (clear() would also hit the second client's keys in the middle of its operations: its per-key
+                    // histories would no longer be sequential, which is what the value oracle judges)
+                    if matches!(op, Op::Reopen | Op::Close | Op::Clear | Op::Ctl { what: 30, .. }) {
+                        *op = Op::Wait;
+                    }
+                }
+            }
             clients.push(ops);
+            if with_b {
+                cfg.insert("client_b".into(), 1);
+                let mut ops_b = vec![];
+                for _ in 0..6 + rng.below(16) {
+                    let k = keys + rng.below(2) as u64;
+                    ops_b.push(match rng.below(20) {
+                        0..=11 => Op::Insert { k, ver: 0, w: *rng.pick(&[0u32, 1, 1, 4]), loc: 0, hold: false },
+                        12..=15 => Op::Get { k, hold: false },
+                        16..=17 => Op::Remove { k },
+                        _ => Op::Yield { n: 1 + rng.below(3) as u8 },
+                    });
+                }
+                clients.push(ops_b);
+            }
         }
         "C12" => {
             cfg.insert("comp".into(), 0);
